@@ -22,6 +22,7 @@ RULE = (
     "only; Resolution + one generated line sets exactly that field. Non-trivial iff >= 3 optional "
     "fields in non-canonical order with >= 1 adversarial value (contains a quote, '=' or a field "
     "name); distinct = distinct body."
+    ' part blocks: the [Song] section slid character by character across multiples of 512..65536 (thorough ..1 MiB) behind an unrecognised filler section (LF and CRLF); the decoded fields must not depend on the position. A body without Resolution is also offered through Chart.from_file / from_filepath.'
 )
 ASSUMPTIONS = [
     "empty strings are outside the quantifier; integers unquoted and non-negative; one line per field; "
